@@ -615,12 +615,9 @@ impl Generator {
 //@contract
     requires
         old(self).rel(r),
-        !old(self).unsafe_mutations,
-        ref_pre(opcode, RefArg { idx: 0 }, r), // @C01 @C02 @C03
-        old(self).sim_pre(opcode), // @C17
-        arg_link(opcode, None, RefArg { idx: 0 }), // @C17 @C04
+        arg_link(opcode, None, RefArg { idx: 0 }), // @C17 @C04 @C09
     ensures
-        final(self).rel(sim_step(opcode, RefArg { idx: 0 }, r)), // @C17 @C01
+        pso_ok(old(self), opcode, RefArg { idx: 0 }, r) ==> final(self).rel(sim_step(opcode, RefArg { idx: 0 }, r)), // @C17 @C01
         final(self).output@ == old(self).output@.push(ref_code(opcode) as u8), // @C04
         final(self).same_config(old(self)),
 //@endfn
@@ -651,7 +648,6 @@ impl Generator {
 //@contract
     requires
         old(self).rel(r),
-        !old(self).unsafe_mutations,
     ensures
         exists|t: Trace| #[trigger] final(self).cleanup_post(old(self), r, t),
 //@prelude
@@ -661,7 +657,7 @@ impl Generator {
                 lemma_count_marks_shape(self.view(), r.stack); }
 //@loop 1
             invariant
-                self.rel(gr), !self.unsafe_mutations, gr == ref_run(r, gtr), ref_run_ok(r, gtr),
+                self.rel(gr), gr == ref_run(r, gtr), ref_run_ok(r, gtr),
                 self.output@ == old(self).output@ + codes(gtr),
                 forall|i: int| 0 <= i < gtr.len() ==> Generator::tail_op(#[trigger] gtr[i].0, old(self).state.version),
                 self.same_config(old(self)), gr.memo == r.memo, gr.memo_len == r.memo_len,
@@ -678,7 +674,7 @@ impl Generator {
         proof { lemma_top_mark_compat(self.view(), gr.stack); lemma_count_marks_bounds(gr.stack); lemma_count_marks_bounds(r.stack); }
 //@loop 2
             invariant
-                self.rel(gr), !self.unsafe_mutations, gr == ref_run(r, gtr), ref_run_ok(r, gtr),
+                self.rel(gr), gr == ref_run(r, gtr), ref_run_ok(r, gtr),
                 self.output@ == old(self).output@ + codes(gtr),
                 forall|i: int| 0 <= i < gtr.len() ==> Generator::tail_op(#[trigger] gtr[i].0, old(self).state.version),
                 self.same_config(old(self)), gr.memo == r.memo, gr.memo_len == r.memo_len,
@@ -775,14 +771,24 @@ impl Generator {
 //@endfn
 
 #[verifier::external_body]
-pub fn create_snapshot(&self) -> (r: VfSnapshot) { unimplemented!() }
+pub fn create_snapshot(&self) -> (r: VfSnapshot)
+    ensures r.output_len() == self.output@.len()
+{ unimplemented!() }
 
 /// post_process_emission: in safe mode no registered built-in mutator rewrites emitted bytes
 /// (TypeConfusionMutator::post_process returns false unless unsafe; all others use the default
 /// method) -- proved by the Kani harnesses u8_typeconfusion_* / u8_not_applicable_*.
 #[verifier::external_body]
 pub fn post_process_emission(&mut self, snapshot: VfSnapshot, source: &mut GenerationSource)
-    ensures !old(self).unsafe_mutations ==> *final(self) == *old(self),
+    requires snapshot.output_len() <= old(self).output@.len()
+    ensures
+        !old(self).unsafe_mutations ==> *final(self) == *old(self),
+        // unsafe mode: only a type-confusion rewrite of the current emission can happen (contract proved in unit mutv:
+        // TypeConfusionMutator::post_process; every other built-in mutator keeps the default no-op)
+        final(self).state == old(self).state && final(self).same_config(old(self)),
+        final(self).output@ == old(self).output@
+            || exists|rep: Seq<u8>, k: int| final(self).output@ == old(self).output@.take(snapshot.output_len() as int) + rep
+                && #[trigger] replacement_ok(rep, k),
 { unimplemented!() }
 
 #[verifier::external_body]
@@ -1429,6 +1435,592 @@ pub fn get_random_module(&self, source: &mut GenerationSource) -> (r: Result<VfT
             assert(out.subrange(h, out.len() as int) =~= flat(gch) + codes(tail) + seq![0x2eu8]); // @C08 @C06 @C11
             assert(self.same_config_but_proto(old(self)));
             assert(self.gen_post(old(self), out, target_opcodes as int, use_frame, gtr, tail, gch));
+        }
+//@endfn
+
+    // =============================================================================================
+    // ANY MODE (unsafe mutations included): the same emitter bodies against a contract that needs no
+    // agreement between simulation and bytes: no panic, Ok, and what is appended is nothing or
+    // exactly one well-formed, flag-respecting opcode -- also after a type-confusion rewrite.
+    pub open spec fn chunk_ok_u(&self, c: Seq<u8>) -> bool {
+        c.len() == 0 || (one_opcode(c) && self.flags_ok(ref_op_of_byte(c[0])))
+    }
+    pub proof fn lemma_emit_u(o: &Generator, mid: Seq<u8>, fin: Seq<u8>, snap_len: nat)
+        requires
+            snap_len == o.output@.len(),
+            exists|e: Seq<u8>| mid == o.output@ + e && #[trigger] o.chunk_ok_u(e),
+            fin == mid || exists|rep: Seq<u8>, k: int| fin == mid.take(snap_len as int) + rep && #[trigger] replacement_ok(rep, k),
+        ensures
+            exists|chunk: Seq<u8>| fin == o.output@ + chunk && #[trigger] o.chunk_ok_u(chunk),
+    {
+        let e = choose|e: Seq<u8>| mid == o.output@ + e && #[trigger] o.chunk_ok_u(e);
+        if fin == mid {
+            assert(fin == o.output@ + e && o.chunk_ok_u(e));
+        } else {
+            let (rep, k) = choose|rep: Seq<u8>, k: int| fin == mid.take(snap_len as int) + rep && #[trigger] replacement_ok(rep, k);
+            assert(mid.take(snap_len as int) =~= o.output@);
+            lemma_class_is_value_pusher(rep[0]);
+            assert(fin == o.output@ + rep && o.chunk_ok_u(rep));
+        }
+    }
+
+//@define EMITU_CONTRACT
+//@contract
+    requires
+        old(self).rel(r),
+        old(self).guard_ok(opcode, r),
+        ref_proto(opcode) <= ver_num(old(self).state.version),
+        ver_num(old(self).state.version) >= 2 ==> old(self).state.proto_emitted,
+    ensures
+        res is Ok, // @C09
+        final(self).same_config(old(self)),
+        exists|chunk: Seq<u8>| final(self).output@ == old(self).output@ + chunk && #[trigger] old(self).chunk_ok_u(chunk), // @C04 @C10 @C06
+//@enddef
+
+//@fn src/generator/emission.rs Generator::emit_int as emit_int_u
+//@ret res
+//@ghost Ghost(r): Ghost<RefState>
+//@props C04 C06 C09 C10
+//@sigsubst Result<()> => Result<(), VfError>
+//@subst self.state.version as u8 => vf_version_u8(self.state.version)
+//@subst PICKLE_OPCODES.get(&version) => vf_pickle_opcodes(version)
+//@substall eyre!( ... ) => VfError { code: 1 }
+//@subst valid_kinds .iter() .cloned() .filter( ... ) .collect() => vf_filter_int_like(valid_kinds)
+//@subst format!("{int}\n") => vf_fmt_i32_nl(int)
+//@subst format!("{int}L\n") => vf_fmt_i32_l_nl(int)
+//@subst int.to_le_bytes().to_vec() => vf_arr4_to_vec(vf_i32_to_le_bytes(int))
+//@substall int.to_le_bytes() => vf_i32_to_le_bytes(int)
+//@subst size.to_le_bytes() => vf_u32_to_le_bytes(size)
+//@subst (int & 0xFFFF).to_le_bytes() => vf_i32_to_le_bytes(int & 0xFFFF)
+//@subst bytes[..2].to_vec() => vf_first2_to_vec(&bytes)
+//@rewrite R17 int vf_int
+//@rewrite R14 process_stack_ops self.process_stack_ops($ARGS, Ghost(r), Ghost(RefArg { idx: 0 }))
+//@contract
+    requires
+        old(self).rel(r),
+    ensures
+        res is Ok, // @C09
+        final(self).same_config(old(self)),
+        exists|chunk: Seq<u8>| final(self).output@ == old(self).output@ + chunk && #[trigger] old(self).chunk_ok_u(chunk), // @C04
+//@before 1 Ok(())
+        proof {
+            let chunk = self.output@.subrange(old(self).output@.len() as int, self.output@.len() as int);
+            assert(self.output@ =~= old(self).output@ + chunk);
+            assert(chunk.subrange(1, chunk.len() as int) =~= arg@);
+            assert(chunk.len() == 1 + arg@.len());
+            assert(enc_ok(chosen, chunk)); // @C04
+            lemma_op_of_byte(chosen);
+            assert(old(self).chunk_ok_u(chunk));
+        }
+//@endfn
+
+//@fn src/generator/emission.rs Generator::emit_global as emit_global_u
+//@ret res
+//@ghost Ghost(r): Ghost<RefState>
+//@props C04 C06 C09 C10
+//@sigsubst Result<()> => Result<(), VfError>
+//@subst module.as_bytes().to_vec() => vf_to_vec(module.as_bytes())
+//@rewrite R14 process_stack_ops self.process_stack_ops($ARGS, Ghost(r), Ghost(RefArg { idx: 0 }))
+//@contract
+    requires
+        old(self).rel(r),
+    ensures
+        res is Ok, // @C09
+        final(self).same_config(old(self)),
+        exists|chunk: Seq<u8>| final(self).output@ == old(self).output@ + chunk && #[trigger] old(self).chunk_ok_u(chunk), // @C04
+//@before 1 Ok(())
+        proof {
+            let chunk = self.output@.subrange(old(self).output@.len() as int, self.output@.len() as int);
+            assert(self.output@ =~= old(self).output@ + chunk);
+            assert(chunk.subrange(1, chunk.len() as int) =~= arg_bytes@);
+            assert(enc_ok(OpcodeKind::Global, chunk)); // @C04
+            lemma_op_of_byte(OpcodeKind::Global);
+            assert(old(self).chunk_ok_u(chunk));
+        }
+//@endfn
+
+//@arms src/generator/emission.rs Generator::emit_bytes opcode as emit_bytes_u
+//@ret res
+//@ghost Ghost(r): Ghost<RefState>
+//@props C04 C06 C09 C10
+//@sigsubst Result<()> => Result<(), VfError>
+//@subst (0..len).map(|_| source.gen_u8()).collect() => vf_gen_u8_vec(source, len)
+//@rewrite R14? process_stack_ops self.process_stack_ops($ARGS, Ghost(r), Ghost(RefArg { idx: 0 }))
+//@substall? (bytes.len() as i32).to_le_bytes() => vf_i32_to_le_bytes(bytes.len() as i32)
+//@substall? (bytes.len() as u32).to_le_bytes() => vf_u32_to_le_bytes(bytes.len() as u32)
+//@substall? (bytes.len() as u64).to_le_bytes() => vf_u64_to_le_bytes(bytes.len() as u64)
+//@contract
+    requires
+        old(self).rel(r),
+        Generator::bytes_family(opcode),
+    ensures
+        res is Ok, // @C09
+        final(self).same_config(old(self)),
+        exists|chunk: Seq<u8>| final(self).output@ == old(self).output@ + chunk && #[trigger] old(self).chunk_ok_u(chunk), // @C04
+//@before 1 Ok(())
+        proof {
+            let chunk = self.output@.subrange(old(self).output@.len() as int, self.output@.len() as int);
+            assert(self.output@ =~= old(self).output@ + chunk);
+            if chunk.len() > 0 { assert(enc_ok(opcode, chunk)); /* @C04 */ lemma_op_of_byte(opcode); }
+            assert(old(self).chunk_ok_u(chunk));
+        }
+//@arm _
+//@unreachable
+//@endfn
+
+//@arms src/generator/emission.rs Generator::emit_string opcode as emit_string_u
+//@ret res
+//@ghost Ghost(r): Ghost<RefState>
+//@props C04 C06 C09 C10
+//@sigsubst Result<()> => Result<(), VfError>
+//@subst (0..len).map(|_| source.gen_ascii_char()).collect() => vf_gen_ascii_string(source, len)
+//@rewrite R14? process_stack_ops self.process_stack_ops($ARGS, Ghost(r), Ghost(RefArg { idx: 0 }))
+//@substall? s.into_bytes() => vf_string_into_bytes(s)
+//@substall? (bytes.len() as u32).to_le_bytes() => vf_u32_to_le_bytes(bytes.len() as u32)
+//@substall? (bytes.len() as u64).to_le_bytes() => vf_u64_to_le_bytes(bytes.len() as u64)
+//@prelude
+        let ghost mut gtext: Seq<u8> = Seq::empty();
+//@contract
+    requires
+        old(self).rel(r),
+        Generator::string_family(opcode),
+    ensures
+        res is Ok, // @C09
+        final(self).same_config(old(self)),
+        exists|chunk: Seq<u8>| final(self).output@ == old(self).output@ + chunk && #[trigger] old(self).chunk_ok_u(chunk), // @C04
+//@before 1 Ok(())
+        proof {
+            let chunk = self.output@.subrange(old(self).output@.len() as int, self.output@.len() as int);
+            assert(self.output@ =~= old(self).output@ + chunk);
+            if opcode == OpcodeKind::String || opcode == OpcodeKind::Unicode { assert(chunk.subrange(1, chunk.len() as int) =~= gtext); }
+            if chunk.len() > 0 { assert(enc_ok(opcode, chunk)); /* @C04 */ lemma_op_of_byte(opcode); }
+            assert(old(self).chunk_ok_u(chunk));
+        }
+//@arm String
+//@subst let escaped = s ... ; => let escaped = vf_escape_py(&s);
+//@subst format!("'{}'\n", escaped) => vf_fmt_quoted_nl(&escaped)
+//@after 1 self.output.extend_from_slice(&arg_bytes);
+                proof { gtext = arg_bytes@; assert(self.output@.subrange(old(self).output@.len() as int + 1, self.output@.len() as int) =~= gtext); }
+//@arm Unicode
+//@subst s.replace('\\', "\\\\") => vf_escape_backslash(&s)
+//@subst format!("{}\n", escaped) => vf_fmt_line_nl(&escaped)
+//@after 1 self.output.extend_from_slice(&arg_bytes);
+                proof { gtext = arg_bytes@; assert(self.output@.subrange(old(self).output@.len() as int + 1, self.output@.len() as int) =~= gtext); }
+//@arm _
+//@unreachable
+//@endfn
+
+//@arms src/generator/emission.rs Generator::emit_and_process opcode as emit_and_process_u
+//@ret res
+//@ghost Ghost(r): Ghost<RefState>
+//@props C04 C06 C09 C10
+//@sigsubst Result<()> => Result<(), VfError>
+//@prelude
+        let ghost mut gtext: Seq<u8> = Seq::empty();
+        let ghost mut g_out: Seq<u8> = Seq::empty();
+//@use EMITU_CONTRACT
+//@arm Int | Long | Long1 | Long4 | BinInt | BinInt1 | BinInt2
+//@rewrite R14 emit_int self.emit_int_u($ARGS, Ghost(r))
+//@before 1 self.post_process_emission(
+        proof { g_out = self.output@; }
+//@before 1 Ok(())
+        proof { Generator::lemma_emit_u(old(self), g_out, self.output@, old(self).output@.len()); }
+//@arm Float
+//@subst format!("{}\n", value) => vf_fmt_f64_nl(value)
+//@rewrite R14? process_stack_ops self.process_stack_ops($ARGS, Ghost(r), Ghost(RefArg { idx: 0 }))
+//@after 1 self.output.extend_from_slice(arg_bytes);
+                    proof { gtext = arg_bytes@; assert(self.output@.subrange(old(self).output@.len() as int + 1, self.output@.len() as int) =~= gtext);
+                            assert(self.output@.len() == old(self).output@.len() + 1 + gtext.len()); }
+//@before 1 self.post_process_emission(
+        proof { g_out = self.output@; }
+//@before 1 Ok(())
+        proof {
+            let e = g_out.subrange(old(self).output@.len() as int, g_out.len() as int);
+            assert(g_out =~= old(self).output@ + e);
+            if e.len() > 0 {
+                assert(e.subrange(1, e.len() as int) =~= gtext);
+                assert(enc_ok(opcode, e)); // @C04
+                lemma_op_of_byte(opcode);
+                assert(old(self).chunk_ok_u(e)); // @C04 @C10
+            }
+            assert(old(self).chunk_ok_u(e));
+            assert(g_out == old(self).output@ + e && old(self).chunk_ok_u(e));
+            Generator::lemma_emit_u(old(self), g_out, self.output@, old(self).output@.len());
+        }
+//@arm BinFloat
+//@subst value.to_be_bytes() => vf_f64_to_be_bytes(value)
+//@rewrite R14? process_stack_ops self.process_stack_ops($ARGS, Ghost(r), Ghost(RefArg { idx: 0 }))
+//@before 1 self.post_process_emission(
+        proof { g_out = self.output@; }
+//@before 1 Ok(())
+        proof {
+            let e = g_out.subrange(old(self).output@.len() as int, g_out.len() as int);
+            assert(g_out =~= old(self).output@ + e);
+            if e.len() > 0 {
+                assert(enc_ok(opcode, e)); // @C04
+                lemma_op_of_byte(opcode);
+                assert(old(self).chunk_ok_u(e)); // @C04 @C10
+            }
+            assert(old(self).chunk_ok_u(e));
+            assert(g_out == old(self).output@ + e && old(self).chunk_ok_u(e));
+            Generator::lemma_emit_u(old(self), g_out, self.output@, old(self).output@.len());
+        }
+//@arm String | Unicode | ShortBinUnicode | BinUnicode | BinUnicode8
+//@rewrite R14 emit_string self.emit_string_u($ARGS, Ghost(r))
+//@before 1 self.post_process_emission(
+        proof { g_out = self.output@; }
+//@before 1 Ok(())
+        proof { Generator::lemma_emit_u(old(self), g_out, self.output@, old(self).output@.len()); }
+//@arm BinString | ShortBinString | ShortBinBytes | BinBytes | BinBytes8 | ByteArray8
+//@rewrite R14 emit_bytes self.emit_bytes_u($ARGS, Ghost(r))
+//@before 1 self.post_process_emission(
+        proof { g_out = self.output@; }
+//@before 1 Ok(())
+        proof { Generator::lemma_emit_u(old(self), g_out, self.output@, old(self).output@.len()); }
+//@arm Global
+//@rewrite R14 emit_global self.emit_global_u($ARGS, Ghost(r))
+//@before 1 self.post_process_emission(
+        proof { g_out = self.output@; }
+//@before 1 Ok(())
+        proof { Generator::lemma_emit_u(old(self), g_out, self.output@, old(self).output@.len()); }
+//@arm Put
+//@subst format!("{}\n", index) => vf_fmt_usize_nl(index)
+//@rewrite R14? process_stack_ops self.process_stack_ops($ARGS, Ghost(r), Ghost(RefArg { idx: index as int }))
+//@after 1 self.output.extend_from_slice(arg_bytes);
+                    proof { gtext = arg_bytes@; assert(self.output@.subrange(old(self).output@.len() as int + 1, self.output@.len() as int) =~= gtext);
+                            assert(self.output@.len() == old(self).output@.len() + 1 + gtext.len()); }
+//@before 1 self.post_process_emission(
+        proof { g_out = self.output@; }
+//@before 1 Ok(())
+        proof {
+            let e = g_out.subrange(old(self).output@.len() as int, g_out.len() as int);
+            assert(g_out =~= old(self).output@ + e);
+            if e.len() > 0 {
+                assert(e.subrange(1, e.len() as int) =~= gtext);
+                assert(enc_ok(opcode, e)); // @C04
+                lemma_op_of_byte(opcode);
+                assert(old(self).chunk_ok_u(e)); // @C04 @C10
+            }
+            assert(old(self).chunk_ok_u(e));
+            assert(g_out == old(self).output@ + e && old(self).chunk_ok_u(e));
+            Generator::lemma_emit_u(old(self), g_out, self.output@, old(self).output@.len());
+        }
+//@arm BinPut
+//@rewrite R14? process_stack_ops self.process_stack_ops($ARGS, Ghost(r), Ghost(RefArg { idx: index as int }))
+//@before 1 self.post_process_emission(
+        proof { g_out = self.output@; }
+//@before 1 Ok(())
+        proof {
+            let e = g_out.subrange(old(self).output@.len() as int, g_out.len() as int);
+            assert(g_out =~= old(self).output@ + e);
+            if e.len() > 0 {
+                assert(enc_ok(opcode, e)); // @C04
+                lemma_op_of_byte(opcode);
+                assert(old(self).chunk_ok_u(e)); // @C04 @C10
+            }
+            assert(old(self).chunk_ok_u(e));
+            assert(g_out == old(self).output@ + e && old(self).chunk_ok_u(e));
+            Generator::lemma_emit_u(old(self), g_out, self.output@, old(self).output@.len());
+        }
+//@arm LongBinPut
+//@substall index.to_le_bytes() => vf_u32_to_le_bytes(index)
+//@rewrite R14? process_stack_ops self.process_stack_ops($ARGS, Ghost(r), Ghost(RefArg { idx: index as int }))
+//@before 1 self.post_process_emission(
+        proof { g_out = self.output@; }
+//@before 1 Ok(())
+        proof {
+            let e = g_out.subrange(old(self).output@.len() as int, g_out.len() as int);
+            assert(g_out =~= old(self).output@ + e);
+            if e.len() > 0 {
+                assert(enc_ok(opcode, e)); // @C04
+                lemma_op_of_byte(opcode);
+                assert(old(self).chunk_ok_u(e)); // @C04 @C10
+            }
+            assert(old(self).chunk_ok_u(e));
+            assert(g_out == old(self).output@ + e && old(self).chunk_ok_u(e));
+            Generator::lemma_emit_u(old(self), g_out, self.output@, old(self).output@.len());
+        }
+//@arm Get
+//@subst self.state.memo.keys().copied().collect() => vf_keys(&self.state.memo)
+//@subst? keys.sort_unstable() => vf_sort_unstable(&mut keys)
+//@subst format!("{}\n", index) => vf_fmt_usize_nl(index)
+//@rewrite R14? process_stack_ops self.process_stack_ops($ARGS, Ghost(r), Ghost(RefArg { idx: index as int }))
+//@after 1 self.output.extend_from_slice(arg_bytes);
+                    proof { gtext = arg_bytes@; assert(self.output@.subrange(old(self).output@.len() as int + 1, self.output@.len() as int) =~= gtext);
+                            assert(self.output@.len() == old(self).output@.len() + 1 + gtext.len()); }
+//@before 1 self.post_process_emission(
+        proof { g_out = self.output@; }
+//@before 1 Ok(())
+        proof {
+            let e = g_out.subrange(old(self).output@.len() as int, g_out.len() as int);
+            assert(g_out =~= old(self).output@ + e);
+            if e.len() > 0 {
+                assert(e.subrange(1, e.len() as int) =~= gtext);
+                assert(enc_ok(opcode, e)); // @C04
+                lemma_op_of_byte(opcode);
+                assert(old(self).chunk_ok_u(e)); // @C04 @C10
+            }
+            assert(old(self).chunk_ok_u(e));
+            assert(g_out == old(self).output@ + e && old(self).chunk_ok_u(e));
+            Generator::lemma_emit_u(old(self), g_out, self.output@, old(self).output@.len());
+        }
+//@arm BinGet
+//@subst self.state.memo.keys().filter(|&&k| k < 256).copied().collect() => vf_keys_below(&self.state.memo, 256)
+//@subst? valid_indices.sort_unstable() => vf_sort_unstable(&mut valid_indices)
+//@subst self.mutate_memo_index(index, source).min(255) => vf_min_usize(self.mutate_memo_index(index, source), 255)
+//@rewrite R14? process_stack_ops self.process_stack_ops($ARGS, Ghost(r), Ghost(RefArg { idx: index as int }))
+//@after 1 let index = valid_indices[
+                    proof { assert(valid_indices@.contains(index)); }
+//@before 1 self.post_process_emission(
+        proof { g_out = self.output@; }
+//@before 1 Ok(())
+        proof {
+            let e = g_out.subrange(old(self).output@.len() as int, g_out.len() as int);
+            assert(g_out =~= old(self).output@ + e);
+            if e.len() > 0 {
+                assert(enc_ok(opcode, e)); // @C04
+                lemma_op_of_byte(opcode);
+                assert(old(self).chunk_ok_u(e)); // @C04 @C10
+            }
+            assert(old(self).chunk_ok_u(e));
+            assert(g_out == old(self).output@ + e && old(self).chunk_ok_u(e));
+            Generator::lemma_emit_u(old(self), g_out, self.output@, old(self).output@.len());
+        }
+//@arm LongBinGet
+//@subst self.state.memo.keys().copied().collect() => vf_keys(&self.state.memo)
+//@subst? keys.sort_unstable() => vf_sort_unstable(&mut keys)
+//@subst (index as u32).to_le_bytes() => vf_u32_to_le_bytes(index as u32)
+//@rewrite R14? process_stack_ops self.process_stack_ops($ARGS, Ghost(r), Ghost(RefArg { idx: (index as u32) as int }))
+//@before 1 self.post_process_emission(
+        proof { g_out = self.output@; }
+//@before 1 Ok(())
+        proof {
+            let e = g_out.subrange(old(self).output@.len() as int, g_out.len() as int);
+            assert(g_out =~= old(self).output@ + e);
+            if e.len() > 0 {
+                assert(enc_ok(opcode, e)); // @C04
+                lemma_op_of_byte(opcode);
+                assert(old(self).chunk_ok_u(e)); // @C04 @C10
+            }
+            assert(old(self).chunk_ok_u(e));
+            assert(g_out == old(self).output@ + e && old(self).chunk_ok_u(e));
+            Generator::lemma_emit_u(old(self), g_out, self.output@, old(self).output@.len());
+        }
+//@arm Ext1
+//@subst source.gen_u8().saturating_add(1) => vf_sat_add_u8(source.gen_u8(), 1)
+//@subst debug_assert!(code >= 1, "EXT1 code out of range: {}", code) => assert(code >= 1) /* @C04 */
+//@rewrite R14? process_stack_ops self.process_stack_ops($ARGS, Ghost(r), Ghost(RefArg { idx: 0 }))
+//@before 1 self.post_process_emission(
+        proof { g_out = self.output@; }
+//@before 1 Ok(())
+        proof {
+            let e = g_out.subrange(old(self).output@.len() as int, g_out.len() as int);
+            assert(g_out =~= old(self).output@ + e);
+            if e.len() > 0 {
+                assert(enc_ok(opcode, e)); // @C04
+                lemma_op_of_byte(opcode);
+                assert(old(self).chunk_ok_u(e)); // @C04 @C10
+            }
+            assert(old(self).chunk_ok_u(e));
+            assert(g_out == old(self).output@ + e && old(self).chunk_ok_u(e));
+            Generator::lemma_emit_u(old(self), g_out, self.output@, old(self).output@.len());
+        }
+//@arm Ext2
+//@subst source.gen_u16().saturating_add(1) => vf_sat_add_u16(source.gen_u16(), 1)
+//@subst debug_assert!(code >= 1, "EXT2 code out of range: {}", code) => assert(code >= 1) /* @C04 */
+//@substall code.to_le_bytes() => vf_u16_to_le_bytes(code)
+//@rewrite R14? process_stack_ops self.process_stack_ops($ARGS, Ghost(r), Ghost(RefArg { idx: 0 }))
+//@before 1 self.post_process_emission(
+        proof { g_out = self.output@; }
+//@before 1 Ok(())
+        proof {
+            let e = g_out.subrange(old(self).output@.len() as int, g_out.len() as int);
+            assert(g_out =~= old(self).output@ + e);
+            if e.len() > 0 {
+                assert(enc_ok(opcode, e)); // @C04
+                lemma_op_of_byte(opcode);
+                assert(old(self).chunk_ok_u(e)); // @C04 @C10
+            }
+            assert(old(self).chunk_ok_u(e));
+            assert(g_out == old(self).output@ + e && old(self).chunk_ok_u(e));
+            Generator::lemma_emit_u(old(self), g_out, self.output@, old(self).output@.len());
+        }
+//@arm Ext4
+//@subst debug_assert!(code > 0, "EXT4 code must be > 0, got {}", code) => assert(0 < code <= 0x7fff_ffff) /* @C04 */
+//@substall code.to_le_bytes() => vf_u32_to_le_bytes(code)
+//@rewrite R14? process_stack_ops self.process_stack_ops($ARGS, Ghost(r), Ghost(RefArg { idx: 0 }))
+//@before 1 self.post_process_emission(
+        proof { g_out = self.output@; }
+//@before 1 Ok(())
+        proof {
+            let e = g_out.subrange(old(self).output@.len() as int, g_out.len() as int);
+            assert(g_out =~= old(self).output@ + e);
+            if e.len() > 0 {
+                assert(enc_ok(opcode, e)); // @C04
+                lemma_op_of_byte(opcode);
+                assert(old(self).chunk_ok_u(e)); // @C04 @C10
+            }
+            assert(old(self).chunk_ok_u(e));
+            assert(g_out == old(self).output@ + e && old(self).chunk_ok_u(e));
+            Generator::lemma_emit_u(old(self), g_out, self.output@, old(self).output@.len());
+        }
+//@arm PersID
+//@subst format!("pid_{}\n", source.gen_u32()) => vf_fmt_pid_nl(source.gen_u32())
+//@rewrite R14? process_stack_ops self.process_stack_ops($ARGS, Ghost(r), Ghost(RefArg { idx: 0 }))
+//@after 1 self.output.extend_from_slice(arg_bytes);
+                    proof { gtext = arg_bytes@; assert(self.output@.subrange(old(self).output@.len() as int + 1, self.output@.len() as int) =~= gtext);
+                            assert(self.output@.len() == old(self).output@.len() + 1 + gtext.len()); }
+//@before 1 self.post_process_emission(
+        proof { g_out = self.output@; }
+//@before 1 Ok(())
+        proof {
+            let e = g_out.subrange(old(self).output@.len() as int, g_out.len() as int);
+            assert(g_out =~= old(self).output@ + e);
+            if e.len() > 0 {
+                assert(e.subrange(1, e.len() as int) =~= gtext);
+                assert(enc_ok(opcode, e)); // @C04
+                lemma_op_of_byte(opcode);
+                assert(old(self).chunk_ok_u(e)); // @C04 @C10
+            }
+            assert(old(self).chunk_ok_u(e));
+            assert(g_out == old(self).output@ + e && old(self).chunk_ok_u(e));
+            Generator::lemma_emit_u(old(self), g_out, self.output@, old(self).output@.len());
+        }
+//@arm Inst
+//@rewrite R14? process_stack_ops self.process_stack_ops($ARGS, Ghost(r), Ghost(RefArg { idx: 0 }))
+//@after 1 self.output.extend_from_slice(arg_bytes);
+                    proof { gtext = arg_bytes@; assert(self.output@.subrange(old(self).output@.len() as int + 1, self.output@.len() as int) =~= gtext);
+                            assert(self.output@.len() == old(self).output@.len() + 1 + gtext.len()); }
+//@before 1 self.post_process_emission(
+        proof { g_out = self.output@; }
+//@before 1 Ok(())
+        proof {
+            let e = g_out.subrange(old(self).output@.len() as int, g_out.len() as int);
+            assert(g_out =~= old(self).output@ + e);
+            if e.len() > 0 {
+                assert(e.subrange(1, e.len() as int) =~= gtext);
+                assert(enc_ok(opcode, e)); // @C04
+                lemma_op_of_byte(opcode);
+                assert(old(self).chunk_ok_u(e)); // @C04 @C10
+            }
+            assert(old(self).chunk_ok_u(e));
+            assert(g_out == old(self).output@ + e && old(self).chunk_ok_u(e));
+            Generator::lemma_emit_u(old(self), g_out, self.output@, old(self).output@.len());
+        }
+//@arm Frame
+//@unreachable
+//@subst unreachable!("Frame should not be emitted during generation") => vf_unreachable()
+//@arm _
+//@rewrite R14 emit_opcode self.emit_opcode($1, Ghost(r))
+//@before 1 self.post_process_emission(
+        proof { g_out = self.output@; }
+//@before 1 Ok(())
+        proof {
+            let e = g_out.subrange(old(self).output@.len() as int, g_out.len() as int);
+            assert(g_out =~= old(self).output@ + e);
+            if e.len() > 0 {
+                assert(enc_ok(opcode, e)); // @C04
+                lemma_op_of_byte(opcode);
+                assert(old(self).chunk_ok_u(e)); // @C04 @C10
+            }
+            assert(old(self).chunk_ok_u(e));
+            assert(g_out == old(self).output@ + e && old(self).chunk_ok_u(e));
+            Generator::lemma_emit_u(old(self), g_out, self.output@, old(self).output@.len());
+        }
+//@endfn
+
+    /// what is proved about one generation call in ANY mode (unsafe mutations included)
+    pub open spec fn gen_post_u(&self, o: &Generator, out: Seq<u8>, framed: bool, chunks: Seq<Seq<u8>>, tail: Trace) -> bool {
+        let v = ver_num(o.state.version);
+        let h = Generator::hdr_len(v, framed);
+        // C04 C10: the body is a sequence of chunks, each nothing or exactly one well-formed, flag-respecting opcode
+        &&& forall|i: int| 0 <= i < chunks.len() ==> o.chunk_ok_u(#[trigger] chunks[i])
+        &&& forall|i: int| 0 <= i < tail.len() ==> Generator::tail_op(#[trigger] tail[i].0, o.state.version)
+        // header, FRAME (C06: also when unsafe rewrites happened, the length is patched after them), single trailing STOP
+        &&& (v >= 2 ==> out.len() >= 2 && out[0] == 0x80 && out[1] == v)
+        &&& (framed ==> v >= 4 && out.len() >= 11 && out[2] == 0x95
+                && vstd::bytes::spec_u64_from_le_bytes(out.subrange(3, 11)) == out.len() - 11)
+        &&& out.len() >= h
+        &&& out.subrange(h, out.len() as int) == flat(chunks) + codes(tail) + seq![0x2eu8]
+        &&& self.same_config_but_proto(o)
+    }
+
+//@fn src/generator/core.rs Generator::generate_internal as generate_internal_u
+//@ret res
+//@props C04 C06 C09 C10
+//@sigsubst Result<Vec<u8>> => Result<Vec<u8>, VfError>
+//@subst self.state.version >= Version::V4 => vf_version_ge(self.state.version, Version::V4)
+//@subst self.max_opcodes.saturating_sub(self.min_opcodes) => vf_sat_sub_usize(self.max_opcodes, self.min_opcodes)
+//@rewrite R16
+//@subst self.output.len().checked_sub(pos + 9).ok_or_else(|| { ... })? => vf_checked_sub_or_err(self.output.len(), pos + 9)?
+//@subst color_eyre::eyre::eyre!( ... ) => VfError { code: 2 }
+//@subst self.output[pos + 1..pos + 9].copy_from_slice(&(frame_size as u64).to_le_bytes()) => vf_copy_le_u64(&mut self.output, pos + 1, frame_size as u64)
+//@rewrite R14 get_valid_opcodes self.get_valid_opcodes(Ghost(gr))
+//@rewrite R14 emit_and_process self.emit_and_process_u($ARGS, Ghost(gr))
+//@rewrite R14 cleanup_for_stop self.cleanup_for_stop(Ghost(gr))
+//@rewrite R14 emit_opcode self.emit_opcode($ARGS, Ghost(gr2))
+//@contract
+    ensures
+        res is Ok, // @C09
+        res is Ok ==> res->Ok_0@ =~= final(self).output@,
+        exists|framed: bool, chunks: Seq<Seq<u8>>, tail: Trace|
+            #[trigger] final(self).gen_post_u(old(self), final(self).output@, framed, chunks, tail),
+//@prelude
+        let ghost mut gr: RefState = empty_state();
+        let ghost mut gch: Seq<Seq<u8>> = Seq::empty();
+        let ghost a0 = RefArg { idx: 0 };
+//@before 1 let mut vf_i: usize = 0;
+        let ghost hdr0 = self.output@;
+        let ghost h = Generator::hdr_len(ver_num(self.state.version), use_frame);
+        proof {
+            assert(self.output@ =~= hdr0 + flat(gch));
+            assert(self.state.memo@.len() == 0);
+            assert(self.rel(gr));
+            assert(hdr0.len() == h); // @C06
+        }
+//@loop 1
+            invariant
+                self.same_config_but_proto(old(self)),
+                ver_num(self.state.version) >= 2 ==> self.state.proto_emitted,
+                self.rel(gr),
+                vf_i <= target_opcodes,
+                forall|i: int| 0 <= i < gch.len() ==> old(self).chunk_ok_u(#[trigger] gch[i]), // @C04 @C10
+                self.output@ == hdr0 + flat(gch), hdr0.len() == h, // @C06
+            decreases target_opcodes - vf_i,
+//@after 1 let valid_ops = self.get_valid_opcodes(
+            let ghost vops = valid_ops@;
+//@after 1 let chosen = self.weighted_choice(
+            let ghost g0 = *self;
+            proof {
+                let i = choose|i: int| 0 <= i < vops.len() && vops[i] == chosen;
+                assert(self.guard_ok(vops[i], gr));
+            }
+//@after 1 self.emit_and_process_u(
+            proof {
+                let chunk = choose|chunk: Seq<u8>| self.output@ == g0.output@ + chunk && g0.chunk_ok_u(chunk);
+                lemma_flat_push(gch, chunk);
+                assert(self.output@ =~= hdr0 + (flat(gch) + chunk));
+                assert(old(self).chunk_ok_u(chunk));
+                gch = gch.push(chunk);
+                gr = self.own_state();
+                self.lemma_own_rel();
+            }
+//@before 1 self.cleanup_for_stop(
+        let ghost g1 = *self;
+//@after 1 self.cleanup_for_stop(
+        let ghost tail = choose|t: Trace| self.cleanup_post(&g1, gr, t);
+        let ghost gr2 = ref_run(gr, tail);
+//@before 1 Ok(self.output.clone())
+        proof {
+            let out = self.output@;
+            let v = ver_num(old(self).state.version);
+            assert(forall|i: int| 0 <= i < tail.len() ==> Generator::tail_op(#[trigger] tail[i].0, old(self).state.version)); // @C10
+            assert(v >= 2 ==> out.len() >= 2 && out[0] == 0x80 && out[1] == v);
+            assert(use_frame ==> v >= 4 && out.len() >= 11 && out[2] == 0x95); // @C06
+            assert(use_frame ==> vstd::bytes::spec_u64_from_le_bytes(out.subrange(3, 11)) == out.len() - 11); // @C06
+            assert(out.len() >= h);
+            assert(out.subrange(h, out.len() as int) =~= flat(gch) + codes(tail) + seq![0x2eu8]); // @C04 @C06
+            assert(self.gen_post_u(old(self), out, use_frame, gch, tail));
         }
 //@endfn
 
